@@ -366,6 +366,8 @@ class ArrayView(object):
         return make_view(self.module, self.t.elem, self.store.sub(i * es, es), self.unit, self.order, self.scope, es, None)
 
     def is_complete(self):
+        if isinstance(self.store, BitStore) and self.store.size != self.requested:
+            return False  # inside a `bits` whose container is not fully in the buffer: no bit is available
         return not self.store.null
 
     def ok(self):
